@@ -133,3 +133,12 @@ META["C09"] = dict(
     level_text="Fault enumeration: five sessions (raw mpx echo, window-blocked sender, compressed 30 KB frames, unary RPC, bidirectional streaming RPC on an auto-connect client) are cut at every byte offset of both directions for short sessions and at handshake bytes, every 7th offset and the tail for long ones (all offsets in thorough), with four fault kinds; about 13 000 faulted runs per quick run. After each: every call returned within 10 s, none returned OK without the peer having done the work (self-describing payloads/results), no partial frame delivered, contexts cancelled, handlers released, no library panic, no per-connection goroutine left, and the same client completes the session again once the path is healed.",
     level_note="Black-hole faults are outside the stated failure model (no heartbeat in the protocol). Bounds are generous constants measured from the injected FIN/RST.",
 )
+
+META["C19"] = dict(
+    engine="net",
+    design_ref="DESIGN.md 3/C19",
+    technique="stateful property-based testing (rapid-generated action sequences with invariants at quiescent points) over a real client behind a counting/refusing proxy, plus exhaustive enumeration of the back-off function through a build-tagged export and observed dial timestamps",
+    level_text="Exploration with an exhaustive sub-space: the reconnect back-off function is enumerated for every attempt 2..100000 and extreme attempt numbers (range 25 ms..1 s, never decreasing) and confirmed by dial timestamps against a refusing address; generated histories of open/free/burst/kill/unreachable/reachable/latency/Close actions on on-demand and auto-connect clients (MaxConns 1..4, channel targets 1..8) must keep exactly one of Connected/Disconnected set, Connected usable, the proxy-side connection count within MaxConns, Close idempotent and terminal with no connection left or reappearing, and recovery (next call / by itself) once the server is reachable again.",
+    level_note="Interleavings of concurrent calls with callbacks are sampled. Hook: mpx.VerifReconnectTimeout (build tag verif, add-only).",
+)
+HOOK_COMMITS.append("384b6fa")
